@@ -90,7 +90,8 @@ def design(thorough):
            # engine await loop composed with the aggregator (PoolAgg.tla)
            ("PoolAggMC", "PoolAgg_exh_nofault.cfg"), ("PoolAggMC", "PoolAgg_exh_small.cfg"),
            # result destinations (Sink.tla): own files as coded; what a repair of the shared file must establish
-           ("SinkMC", "Sink_exh.cfg"), ("SinkMC", "Sink_repair.cfg")]
+           ("SinkMC", "Sink_exh.cfg"), ("SinkMC", "Sink_repair.cfg"),
+           ("AggregatorMC", "Aggregator_exh_discard.cfg")]
     if thorough:
         pos += [("AggregatorMC", "Aggregator_exh_big.cfg"), ("ShutdownMC", "Shutdown_exh_q2.cfg"),
                 ("ShutdownMC", "Shutdown_exh_big.cfg"),
@@ -212,7 +213,7 @@ def validate(v, module, rows, d, describe, name):
 def describe_agg(evs, ev, inv, bad):
     head = next((e for e in evs if e["ev"] == "Run"), {})
     nrep = sum(1 for e in evs if e["ev"] == "Report") + sum(e["n"] for e in evs if e["ev"] == "Reports")
-    nline = sum(1 for e in evs if e["ev"] in ("Line", "JLine", "BadLine"))
+    nline = sum(1 for e in evs if e["ev"] in ("Line", "JLine", "LogLine", "BadLine"))
     end = next((e for e in evs if e["ev"] == "RunEnd"), {})
     brief = {k: ev.get(k) for k in ("ev", "c", "raw", "s", "dropped", "err", "partial", "lines") if k in ev}
     return ("agg kind=%s mode=%s inv=%s bad=%s" % (head.get("kind"), head.get("mode"), inv, bad),
@@ -301,9 +302,9 @@ def run(tier, v):
     ncases, cstates, ctrans, csamples = format_cases(v, vdrive, d)
     # M1 in-process
     agg_path = os.path.join(d, "agg.ndjson")
-    nruns, neng, ncan, nstress, nprov = (5000, 300, 1500, 40, 700) if thorough else (300, 24, 40, 4, 24)
+    nruns, neng, ncan, nstress, nprov, nother = (5000, 300, 1500, 40, 700, 400) if thorough else (300, 24, 40, 4, 24, 30)
     vlib.run_driver(vdrive, ["agg", "-out", agg_path, "-runs", str(nruns), "-engine", str(neng), "-cancel", str(ncan),
-                             "-dropstress", str(nstress), "-provfail", str(nprov)], timeout=3000)
+                             "-dropstress", str(nstress), "-provfail", str(nprov), "-other", str(nother)], timeout=3000)
     rows = vlib.read_ndjson(agg_path)
     # real engine runs (hooks of the await loop merged with report / line events) answer to PoolAgg's trace
     # specification, which re-uses every action of TraceAggregator; direct runs to TraceAggregator itself
@@ -318,7 +319,7 @@ def run(tier, v):
     nhooks = sum(1 for r in rows if r["ev"] == "Hook")
     sink_cov = sink_runs(v, vdrive, d, 60 if thorough else 9)
     nrep = sum(1 for r in rows if r["ev"] == "Report") + sum(r["n"] for r in rows if r["ev"] == "Reports")
-    nlines = sum(1 for r in rows if r["ev"] in ("Line", "JLine"))
+    nlines = sum(1 for r in rows if r["ev"] in ("Line", "JLine", "LogLine"))
     ndrop = sum(r["dropped"] for r in rows if r["ev"] == "RunEnd")
     droprun = sum(1 for r in rows if r["ev"] == "RunEnd" and r["dropped"] > 0)
     # process level
@@ -348,7 +349,9 @@ def run(tier, v):
                             "dropped": ndrop, "runs_with_drops": droprun, "engine_runs": neng, "engine_runs_cancelled_midway": ncan,
                             "modes": {m: sum(1 for r in rows if r["ev"] == "Run" and r["mode"] == m)
                                       for m in ("normal", "late", "burst", "engine", "cancel", "provfail", "dropstress")},
-                            "engine_runs_provider_failed_midway": nprov, "engine_hook_events": nhooks,
+                            "engine_runs_provider_failed_midway": nprov,
+                            "kinds": {k: sum(1 for r in rows if r["ev"] == "Run" and r["kind"] == k)
+                                      for k in ("phout", "jsonlines", "log", "discard")}, "engine_hook_events": nhooks,
                             "engine_runs_validated_by_TracePoolAgg": pa_validated,
                             "trace_spec_states": agg_states},
         "signal_runs": {"validated": sig_validated, "signalled": len(sigs), "self_ended": len(exits) - len(sigs),
